@@ -62,6 +62,111 @@ fn baseline(files: &[String], pats: &[P]) -> Result<Vec<Vec<BTreeSet<i32>>>, Str
     Ok(b)
 }
 
+fn seeded_pool(seed: u64) -> Vec<String> {
+    let bytes: Vec<u8> = (0..400u64).map(|i| (fnv(&(seed, 31u8, i)) >> 9) as u8).collect();
+    let mut t = Tape::new(&bytes);
+    pool(&mut t).0
+}
+
+fn order_of(n: usize, order: u64) -> Vec<usize> {
+    let mut idx: Vec<usize> = (0..n).collect();
+    match order {
+        0 => {}
+        1 => idx.reverse(),
+        k => idx.sort_by_key(|i| fnv(&(k, *i))),
+    }
+    idx
+}
+
+/// Child side of the fresh-process phase (`vcheck __c15-baseline <seed> <order>`): analyse the seeded
+/// pool once, in the given order, in a process that has seen nothing else, and print the verdicts.
+pub fn child_baseline(seed: u64, order: u64) {
+    let files = seeded_pool(seed);
+    let pats = patterns::all();
+    let mut rows: Vec<Value> = vec![Value::Null; files.len()];
+    for i in order_of(files.len(), order) {
+        let row: Vec<Value> = pats.iter().map(|p| match catch(|| p.analyze(&files[i], 0)) {
+            Ok(l) => json!(l),
+            Err(site) => json!(format!("panic:{site}")),
+        }).collect();
+        rows[i] = Value::Array(row);
+    }
+    println!("{}", Value::Array(rows));
+}
+
+/// Fresh-process phase: process-wide state that is set on first sight of some file and never reset
+/// looks the same from every later call of that process, so no in-process comparison can see it.
+/// The pool is therefore analysed by several fresh child processes of this binary, each in another
+/// order; the verdict on every (file, pattern) must be the same in all of them.
+fn fresh_process_phase(env: &Env, st: &mut Stats) {
+    fresh_process_phase_with(env, env.seed, st)
+}
+
+fn fresh_process_phase_with(env: &Env, seed: u64, st: &mut Stats) {
+    let exe = match std::env::current_exe() {
+        Ok(e) => e,
+        Err(_) => {
+            st.harness_errors.push("cannot locate the harness binary for the fresh-process phase".into());
+            return;
+        }
+    };
+    let files = seeded_pool(seed);
+    let pats = patterns::all();
+    let orders: Vec<u64> = (0..env.tier.n(6, 24) as u64).collect();
+    let mut outs: Vec<Option<Value>> = Vec::new();
+    std::thread::scope(|s| {
+        let hs: Vec<_> = orders.iter().map(|o| {
+            let exe = &exe;
+                        s.spawn(move || {
+                let out = std::process::Command::new(exe).args(["__c15-baseline", &seed.to_string(), &o.to_string()]).output().ok()?;
+                if !out.status.success() {
+                    return None;
+                }
+                serde_json::from_slice::<Value>(&out.stdout).ok()
+            })
+        }).collect();
+        for h in hs {
+            outs.push(h.join().ok().flatten());
+        }
+    });
+    let first = match &outs[0] {
+        Some(v) => v.clone(),
+        None => {
+            st.harness_errors.push("fresh-process phase: the child process gave no result".into());
+            return;
+        }
+    };
+    for (k, o) in outs.iter().enumerate().skip(1) {
+        let o = match o {
+            Some(o) => o,
+            None => {
+                st.harness_errors.push("fresh-process phase: a child process gave no result".into());
+                return;
+            }
+        };
+        for fi in 0..files.len() {
+            for (pi, p) in pats.iter().enumerate() {
+                st.evaluations += 1;
+                st.count("verdicts_compared_across_fresh_processes");
+                if first[fi][pi] != o[fi][pi] {
+                    let before: Vec<usize> = order_of(files.len(), orders[k]).into_iter().take_while(|i| *i != fi).collect();
+                    let vs = vec![Violation::new(
+                        "fresh-processes",
+                        format!("verdict-depends-on-files-analysed-earlier-in-the-process:{}", p.name),
+                        format!("{} on pool file {fi} gives {} when the pool is analysed in order in a fresh process, but {} in a fresh process that analysed files {:?} first", p.name, first[fi][pi], o[fi][pi], before),
+                        json!({"seed": seed, "order": orders[k], "file": files[fi], "file_index": fi, "pattern": p.name}),
+                    )];
+                    let vs = filter_known(env, st, vs);
+                    if !vs.is_empty() {
+                        st.violations.extend(vs);
+                        return;
+                    }
+                }
+            }
+        }
+    }
+}
+
 fn history_case(tape: &[u8], st: &mut Stats) -> Vec<Violation> {
     let mut t = Tape::new(tape);
     let (files, twin_of) = pool(&mut t);
@@ -247,6 +352,61 @@ fn concurrent_phase(env: &Env, st: &mut Stats) {
     });
     st.evaluations += total.load(std::sync::atomic::Ordering::Relaxed);
     st.add("concurrent_calls", total.load(std::sync::atomic::Ordering::Relaxed));
+    // cold start: a text (and pragma value) that this process has never analysed is analysed for the
+    // first time by 16 threads at once (released together by a barrier); the sequential result is
+    // taken afterwards.  Whatever is initialised lazily on first sight must not be visible half-done.
+    {
+        let gated: Vec<P> = pats.iter().copied().filter(|p| ["safe_math_pre_080", "safe_math_post_080", "string_errors", "short_revert_string", "floating_pragma", "solidity_math"].contains(&p.name)).collect();
+        let rounds = env.tier.n(150, 2500) as usize;
+        let mut cold_calls = 0u64;
+        'rounds: for r in 0..rounds {
+            let op = ["", "^", ">=", "~", "="][r % 5];
+            let text = format!(
+                "pragma solidity {op}0.{}.{} ;\nusing SafeMath for uint256 ;\ncontract Cold{r} {{\nfunction f{r} ( uint256 a ) public returns ( uint256 ) {{\nrequire ( a > {r} , \"a message that is longer than thirty-two bytes in total {r}\" ) ;\nreturn a . add ( {r} ) + 1 ;\n}}\n}}\n",
+                7 + (r % 2),
+                41 + r
+            );
+            let barrier = std::sync::Barrier::new(16);
+            let got: std::sync::Mutex<Vec<(usize, Vec<Result<BTreeSet<i32>, String>>)>> = std::sync::Mutex::new(Vec::new());
+            std::thread::scope(|s| {
+                for th in 0..16usize {
+                    let (text, gated, barrier, got) = (&text, &gated, &barrier, &got);
+                    s.spawn(move || {
+                        barrier.wait();
+                        let mut v = Vec::new();
+                        // threads start with different detectors so that every detector is somebody's first call
+                        for k in 0..gated.len() {
+                            let p = &gated[(k + th) % gated.len()];
+                            v.push(catch(|| p.analyze(text, th)));
+                        }
+                        got.lock().unwrap().push((th, v));
+                    });
+                }
+            });
+            for (th, v) in got.into_inner().unwrap() {
+                for (k, r1) in v.into_iter().enumerate() {
+                    let p = &gated[(k + th) % gated.len()];
+                    cold_calls += 1;
+                    let seq = catch(|| p.analyze(&text, 0));
+                    if r1 != seq {
+                        let vs = vec![Violation::new(
+                            "concurrent",
+                            format!("concurrent-first-call-differs:{}", p.name),
+                            format!("{} on a text analysed for the first time by 16 threads at once gives {:?} in thread {th}, {:?} sequentially afterwards", p.name, r1, seq),
+                            json!({"text": text, "pattern": p.name}),
+                        )];
+                        let vs = filter_known(env, st, vs);
+                        if !vs.is_empty() {
+                            st.violations.extend(vs);
+                            break 'rounds;
+                        }
+                    }
+                }
+            }
+        }
+        st.evaluations += cold_calls;
+        st.add("concurrent_first_calls_on_fresh_texts", cold_calls);
+    }
     // concurrent directory analyses: 16 threads, each on its own copy of a tree nested 6 levels deep
     {
         let mut level: Vec<Entry> = vec![Entry { name: "Leaf.sol".into(), kind: Kind::File(files[0].clone().into_bytes()), class: "eligible" }];
@@ -360,7 +520,14 @@ fn deep_phase(env: &Env, st: &mut Stats) {
     }
 }
 
-pub fn replay(env: &Env, _check: &str, case: &Value, st: &mut Stats) -> Vec<Violation> {
+pub fn replay(env: &Env, check: &str, case: &Value, st: &mut Stats) -> Vec<Violation> {
+    if check == "fresh-processes" {
+        let seed = case.get("seed").and_then(|s| s.as_u64()).unwrap_or(0);
+        let mut s2 = Stats::default();
+        fresh_process_phase_with(env, seed, &mut s2);
+        st.evaluations += s2.evaluations;
+        return s2.violations;
+    }
     // replays re-run the recorded per-file calls against fresh baselines
     let files: Vec<String> = case.get("files").and_then(|f| f.as_array()).map(|a| a.iter().filter_map(|x| x.as_str().map(String::from)).collect()).unwrap_or_default();
     let pats = patterns::all();
@@ -399,6 +566,7 @@ pub fn run(env: &Env) -> i32 {
         let h = sc.spawn(|| deep_phase(env, &mut deep_stats));
         tape_stream(env, &mut st, "histories", env.tier.n(3000, 40_000), 900, |tape, s| history_case(tape, s));
         concurrent_phase(env, &mut st);
+        fresh_process_phase(env, &mut st);
         let _ = h.join();
     });
     st.merge(deep_stats);
@@ -409,6 +577,8 @@ pub fn run(env: &Env) -> i32 {
         floors: vec![
             ("concurrent calls".into(), st.counters.get("concurrent_calls").copied().unwrap_or(0), 1000),
             ("calls after a very deep file".into(), st.counters.get("calls_after_a_very_deep_file").copied().unwrap_or(0), 100),
+            ("concurrent first calls on fresh texts".into(), st.counters.get("concurrent_first_calls_on_fresh_texts").copied().unwrap_or(0), 1000),
+            ("verdicts compared across fresh processes".into(), st.counters.get("verdicts_compared_across_fresh_processes").copied().unwrap_or(0), 1000),
         ],
     };
     finish(env, st, meta)
